@@ -166,8 +166,55 @@ def gen_history(rng, profile):
     return g, all_tables
 
 
+def gen_abort_ckpt_history(rng):
+    """units that end in a failure or a rollback after having written rows (a multi-row INSERT whose last row violates a
+    constraint, a batch whose last statement fails, a session that is rolled back or dropped), each followed by a checkpoint
+    or VACUUM while nothing is open, then more committed work: what was rolled back must stay invisible across the
+    checkpoint and a later crash"""
+    g = Gen(rng, set())
+    g.h.cfg = "cache=10000"
+    used = {}
+    t = mk_table(rng, 1, constrained=True)
+    g.tables.append(t)
+    g.h.x(t.create_sql(), t.create_coq())
+    used[t.tid] = []
+    rows = [g.row(t, i) for i in g.fresh_ids(2)]
+    g.h.x(G.insert_sql(t, rows), G.insert_coq(t, rows), sorted_=True)
+    used[t.tid] = list(range(1, g.next_id))
+    for round_ in range(rng.choice([2, 3, 4])):
+        mode = rng.choice(["stmt", "batch", "rollback", "drop"])
+        if mode == "stmt":
+            ids = g.fresh_ids(3)
+            rows = [g.row(t, i) for i in ids]
+            rows[2][0] = G.lit_int(rng.choice(used[t.tid]))          # duplicate key in the last row
+            g.h.x(G.insert_sql(t, rows), G.insert_coq(t, rows), sorted_=True)
+        elif mode == "batch":
+            stmts = []
+            for _ in range(2):
+                rows = [g.row(t, i) for i in g.fresh_ids(rng.choice([1, 2]))]
+                stmts.append((G.insert_sql(t, rows), G.insert_coq(t, rows)))
+            stmts.append(("INSERT INTO nosuch VALUES (1)", "SInsert 99 None [[I 1]]"))
+            g.h.batch(stmts)
+        else:
+            k = 20 + round_
+            g.h.begin(k)
+            for _ in range(rng.choice([1, 2])):
+                rows = [g.row(t, i) for i in g.fresh_ids(rng.choice([1, 2]))]
+                g.h.q(k, G.insert_sql(t, rows), G.insert_coq(t, rows), sorted_=True)
+            g.h.rollback(k, drop=(mode == "drop"))
+        if rng.random() < 0.8:
+            if rng.random() < 0.7:
+                g.h.simple("F", "AFlush")
+            else:
+                g.h.simple("V", "AVacuum")
+        rows = [g.row(t, i) for i in g.fresh_ids(rng.choice([1, 2]))]
+        g.h.x(G.insert_sql(t, rows), G.insert_coq(t, rows), sorted_=True)
+        used[t.tid] = list(range(1, g.next_id))
+    return g, [t]
+
+
 def gen_case(rng, profile, points, nested="0", kind="history"):
-    g, tables = gen_history(rng, profile)
+    g, tables = gen_abort_ckpt_history(rng) if "abort-ckpt" in profile else gen_history(rng, profile)
     post = ";;".join("%s=INSERT INTO %s VALUES (%d, 1, 1, 'p'%s)" % (t.name, t.name, 900000 + t.tid, ", 1" if len(t.cols) == 5 else "")
                      for t in tables)
     rust = "crash %s %s %s %s P%s | %s" % (g.h.cfg, ",".join(t.name for t in tables), points, nested,
@@ -256,6 +303,38 @@ def model_canon(line):
 # ---------------------------------------------------------------------------------------------
 # model-independent oracle: insert-only histories whose committed ids are tracked here
 # ---------------------------------------------------------------------------------------------
+def gen_longlog_case(rng, points, nested="0"):
+    """the log grows past block zero and at least one full data block between checkpoints (multi-row inserts of 80-byte
+    texts into five tables, at most 150 rows each); ids are tracked here"""
+    names = ["t1", "t2", "t3", "t4", "t5"]
+    acts, ids_after = [], []
+    committed = {n: [] for n in names}
+    created = set()
+    nxt = [1]
+    text = "abcdefghij" * 8
+
+    def snap():
+        ids_after.append({n: (sorted(v) if n in created else None) for n, v in committed.items()})
+
+    for n in names:
+        acts.append("X CREATE TABLE %s (id INT, k INT, s TEXT)" % n); created.add(n); snap()
+    count = {n: 0 for n in names}
+    for r in range(rng.choice([24, 28])):
+        n = rng.choice([x for x in names if count[x] <= 125] or names[:1])
+        if count[n] > 125:
+            break
+        ids = list(range(nxt[0], nxt[0] + 25)); nxt[0] += 25; count[n] += 25
+        acts.append("X INSERT INTO %s VALUES %s" % (n, ", ".join("(%d, %d, '%s')" % (i, i % 7, text) for i in ids)))
+        committed[n] += ids; snap()
+        if rng.random() < 0.4:
+            ids = [nxt[0]]; nxt[0] += 1; count[n] += 1
+            acts.append("X INSERT INTO %s VALUES (%d, 0, 'y')" % (n, ids[0])); committed[n] += ids; snap()
+        if rng.random() < 0.08:
+            acts.append("F"); snap()
+    rust = "crash cache=10000 %s %s %s | %s" % (",".join(names), points, nested, " | ".join(acts))
+    return Case(rust, None, "longlog", {"ids": ids_after, "tables": names, "classes": [], "class_pos": {}})
+
+
 def gen_simple_case(rng, points, nested="0"):
     """inserts only (autocommit, sessions that commit / roll back / stay open, batches), flushes while nothing is open;
     the ids each table must hold after every action are computed here, without RefDB"""
